@@ -13,6 +13,8 @@
 import YalafiVerif.Proofs.Scanner
 import YalafiVerif.Generated.Tables
 import YalafiVerif.Proofs.Plain
+import YalafiVerif.Proofs.PlainSpecial
+import YalafiVerif.Generated.WF
 namespace Yalafi
 
 theorem C06_longest_match (T : Tables) (h : T.WFScan) (rest : Str) (t : Str)
@@ -74,5 +76,32 @@ theorem C06_plain_fixed_point_text (T : PTables) (o : Options) (fs : FS) (thresh
               pos := (List.range src.length).map (· + 1), parts := [], unknowns := [],
               diags := st1.diags, foreign := false } :=
   tex2txt_plain_text T o fs thresh src fuel st1 hdefs hextr hrepl hunkn hinit h hf
+
+/-- **special sequences follow the table**, end to end on the filter model: for a source made of
+    copied characters and special sequences (`specText`: at every offset outside a matched key
+    either the longest matching key of the table is a `plainSpecialKey` — not white space, `%`,
+    `#`, `$`, `\\(`, `$$`, `\\[`, `\\\\`, `{`, `}` — or no key matches and the character is copied),
+    on which no line consists of white space and blank-valued special sequences only (`linesOK`:
+    C05's case), the output text and its positions are those of the reference `refSpecial`:
+    left to right, the longest matching key is replaced by its table value mapped to the offset
+    where the key starts, every other character is copied with its own offset.  No unknowns, no
+    new diagnostics.  `hnl`: no table value contains a line break. -/
+theorem C06_specials_follow_table (T : PTables) (o : Options) (fs : FS) (thresh : Nat) (src : Str)
+    (fuel : Nat) (st1 : PState)
+    (hwf : T.toTables.WFScan) (hnl : ∀ e ∈ T.special, hasNl e.2 = false)
+    (hdefs : o.defs = []) (hextr : o.extr = []) (hrepl : o.hasRepl = false) (hunkn : o.unkn = false)
+    (hinit : initParser T fuel o (initialState T o false fs) = .ok ((), st1))
+    (h : specText T st1 src = true) (hlines : linesOK T.toTables src = true)
+    (hf : src.length + 2 ≤ fuel) :
+    ∃ r, tex2txt T fuel src o false thresh fs = .ok r ∧
+      r.txt = (refSpecial T.toTables src 0).1 ∧
+      r.pos = (refSpecial T.toTables src 0).2.map (· + 1) ∧
+      r.unknowns = [] ∧ r.diags = st1.diags :=
+  tex2txt_special T o fs thresh src fuel st1 hwf hnl hdefs hextr hrepl hunkn hinit h hlines hf
+
+/-- the table translated from the current /repo satisfies the two table hypotheses -/
+theorem C06_specials_tables_current :
+    Generated.theTables.toTables.WFScan ∧ (∀ e ∈ Generated.theTables.special, hasNl e.2 = false) :=
+  ⟨Generated.wfScan, by decide +kernel⟩
 
 end Yalafi
